@@ -384,4 +384,194 @@ theorem computeOk_nofault (maxR : Nat) (hm : 1 ≤ maxR) : computeOk maxR (fun _
   obtain ⟨m, rfl⟩ : ∃ m, maxR = m + 1 := ⟨maxR - 1, by omega⟩
   simp [computeOk, List.range_succ]
 
+/-! ### torn writes (`tryWriteT`, `savePartT`, `savePartsT`, `saveTextT`) -/
+
+theorem tryWriteT_notorn (wfail : Nat → Bool) :
+    tryWriteT wfail (fun _ => false) = tryWrite wfail := by
+  funext st name text
+  simp [tryWriteT, tryWrite]
+
+theorem savePartT_notorn (maxR : Nat) (wfail : Nat → Bool) (cfail : Nat → Bool) (name text : Str) :
+    ∀ (fuel attempt : Nat) (st : St),
+    savePartT maxR wfail (fun _ => false) cfail name text fuel attempt st =
+      savePart maxR wfail cfail name text fuel attempt st := by
+  intro fuel
+  induction fuel with
+  | zero => intro attempt st; rfl
+  | succ fuel ih =>
+    intro attempt st
+    simp only [savePartT, savePart, tryWriteT_notorn, ih]
+
+theorem savePartsT_notorn (maxR : Nat) (wfail : Nat → Bool) (cfail : Nat → Nat → Bool)
+    (path suffix : Str) : ∀ (ps : List (List Str)) (i : Nat) (st : St),
+    savePartsT maxR wfail (fun _ => false) cfail path suffix ps i st =
+      saveParts maxR wfail cfail path suffix ps i st := by
+  intro ps
+  induction ps with
+  | nil => intro i st; rfl
+  | cons p ps ih =>
+    intro i st
+    simp only [savePartsT, saveParts, savePartT_notorn, ih]
+
+theorem saveTextT_notorn (fs : FS) (path : Str) (parts : List (List Str)) (maxR : Nat)
+    (wfail : Nat → Bool) (cfail : Nat → Nat → Bool) :
+    saveTextT fs path parts maxR wfail (fun _ => false) cfail =
+      saveText fs path parts maxR wfail cfail := by
+  simp only [saveTextT, saveText, tryWriteT_notorn, savePartsT_notorn]
+
+theorem tryWriteT_read_ne (wfail torn : Nat → Bool) (st : St) (name text n' : Str) (h : n' ≠ name) :
+    (tryWriteT wfail torn st name text).1.fs.read n' = st.fs.read n' := by
+  unfold tryWriteT
+  split
+  · show (if torn st.w = true then _ else st.fs).read n' = _
+    split
+    · exact read_write_ne _ _ _ _ h
+    · rfl
+  · exact read_write_ne _ _ _ _ h
+
+theorem tryWriteT_ok_read (wfail torn : Nat → Bool) (st : St) (name text : Str)
+    (h : (tryWriteT wfail torn st name text).2 = true) :
+    (tryWriteT wfail torn st name text).1.fs.read name = some ⟨getCodec name, text⟩ := by
+  unfold tryWriteT at h ⊢
+  split
+  · rename_i hw; simp [hw] at h
+  · exact read_write_self _ _ _
+
+theorem savePartT_succ (maxR : Nat) (wfail torn : Nat → Bool) (cfail : Nat → Bool) (name text : Str)
+    (fuel attempt : Nat) (st : St) :
+    savePartT maxR wfail torn cfail name text (fuel + 1) attempt st =
+      if cfail attempt then
+        (if attempt + 1 = maxR then (st, false)
+         else savePartT maxR wfail torn cfail name text fuel (attempt + 1) st)
+      else if (tryWriteT wfail torn st name text).2 then ((tryWriteT wfail torn st name text).1, true)
+      else if attempt + 1 = maxR then ((tryWriteT wfail torn st name text).1, false)
+      else savePartT maxR wfail torn cfail name text fuel (attempt + 1)
+        (tryWriteT wfail torn st name text).1 := by
+  simp only [savePartT, Nat.add_sub_cancel]
+
+theorem savePartT_read_ne (maxR : Nat) (wfail torn : Nat → Bool) (cfail : Nat → Bool)
+    (name text n' : Str) (h : n' ≠ name) : ∀ (fuel attempt : Nat) (st : St),
+    (savePartT maxR wfail torn cfail name text fuel attempt st).1.fs.read n' = st.fs.read n' := by
+  intro fuel
+  induction fuel with
+  | zero => intro attempt st; rfl
+  | succ fuel ih =>
+    intro attempt st
+    rw [savePartT_succ]
+    split
+    · split
+      · rfl
+      · exact ih _ _
+    · split
+      · exact tryWriteT_read_ne _ _ _ _ _ _ h
+      · split
+        · exact tryWriteT_read_ne _ _ _ _ _ _ h
+        · rw [ih]; exact tryWriteT_read_ne _ _ _ _ _ _ h
+
+/-- a partition task that succeeds ends with a complete write of its file: whatever torn earlier
+attempts left under that name has been overwritten -/
+theorem savePartT_ok_read (maxR : Nat) (wfail torn : Nat → Bool) (cfail : Nat → Bool)
+    (name text : Str) : ∀ (fuel attempt : Nat) (st : St),
+    (savePartT maxR wfail torn cfail name text fuel attempt st).2 = true →
+    (savePartT maxR wfail torn cfail name text fuel attempt st).1.fs.read name =
+      some ⟨getCodec name, text⟩ := by
+  intro fuel
+  induction fuel with
+  | zero => intro attempt st h; simp [savePartT] at h
+  | succ fuel ih =>
+    intro attempt st
+    rw [savePartT_succ]
+    split
+    · split
+      · intro h; simp at h
+      · exact ih _ _
+    · split
+      · rename_i hw; intro _; exact tryWriteT_ok_read _ _ _ _ _ hw
+      · split
+        · intro h; simp at h
+        · exact ih _ _
+
+theorem savePartsT_cons (maxR : Nat) (wfail torn : Nat → Bool) (cfail : Nat → Nat → Bool)
+    (path suffix : Str) (p : List Str) (ps : List (List Str)) (i : Nat) (st : St) :
+    savePartsT maxR wfail torn cfail path suffix (p :: ps) i st =
+      if (savePartT maxR wfail torn (cfail i) (joinPath path (partName i suffix)) (encodePart p) maxR 0 st).2
+      then savePartsT maxR wfail torn cfail path suffix ps (i + 1)
+        (savePartT maxR wfail torn (cfail i) (joinPath path (partName i suffix)) (encodePart p) maxR 0 st).1
+      else ((savePartT maxR wfail torn (cfail i) (joinPath path (partName i suffix)) (encodePart p) maxR 0 st).1,
+        false) := by
+  simp only [savePartsT]
+
+/-- (a) `savePartsT` (complete, failed and torn writes alike) only touches the part files of the
+indices it processes -/
+theorem savePartsT_read_ne (maxR : Nat) (wfail torn : Nat → Bool) (cfail : Nat → Nat → Bool)
+    (path suffix n' : Str) : ∀ (ps : List (List Str)) (i : Nat) (st : St),
+    (∀ j, i ≤ j → n' ≠ joinPath path (partName j suffix)) →
+    (savePartsT maxR wfail torn cfail path suffix ps i st).1.fs.read n' = st.fs.read n' := by
+  intro ps
+  induction ps with
+  | nil => intro i st _; rfl
+  | cons p ps ih =>
+    intro i st h
+    rw [savePartsT_cons]
+    split
+    · rw [ih _ _ (fun j hj => h j (by omega))]
+      exact savePartT_read_ne _ _ _ _ _ _ _ (h i (Nat.le_refl _)) _ _ _
+    · exact savePartT_read_ne _ _ _ _ _ _ _ (h i (Nat.le_refl _)) _ _ _
+
+/-- (b) after a successful `savePartsT` every processed part file holds its partition's full text -/
+theorem savePartsT_ok_read (maxR : Nat) (wfail torn : Nat → Bool) (cfail : Nat → Nat → Bool)
+    (path suffix : Str) : ∀ (ps : List (List Str)) (i : Nat) (st : St),
+    (savePartsT maxR wfail torn cfail path suffix ps i st).2 = true →
+    ∀ (j : Nat) (hj : j < ps.length),
+      (savePartsT maxR wfail torn cfail path suffix ps i st).1.fs.read
+          (joinPath path (partName (i + j) suffix)) =
+        some ⟨getCodec (joinPath path (partName (i + j) suffix)), encodePart ps[j]⟩ := by
+  intro ps
+  induction ps with
+  | nil => intro i st _ j hj; simp at hj
+  | cons p ps ih =>
+    intro i st
+    rw [savePartsT_cons]
+    split
+    · rename_i hok
+      intro h j hj
+      cases j with
+      | zero =>
+        rw [savePartsT_read_ne]
+        · exact savePartT_ok_read _ _ _ _ _ _ _ _ _ hok
+        · intro j' hj' he
+          have := partPath_inj path suffix _ _ he
+          omega
+      | succ j =>
+        have := ih (i + 1) _ h j (by simpa using hj)
+        simpa [Nat.add_assoc, Nat.add_comm 1 j] using this
+    · intro h; simp at h
+
+theorem saveTextT_exists (fs : FS) (path : Str) (parts : List (List Str)) (maxR : Nat)
+    (wfail torn : Nat → Bool) (cfail : Nat → Nat → Bool) (h : fs.pathExists path = true) :
+    saveTextT fs path parts maxR wfail torn cfail = (fs, .alreadyExists) := by
+  simp [saveTextT, h]
+
+theorem saveTextT_multi (fs : FS) (path : Str) (parts : List (List Str)) (maxR : Nat)
+    (wfail torn : Nat → Bool) (cfail : Nat → Nat → Bool) (hfree : fs.pathExists path = false)
+    (hn : parts.length ≠ 1) :
+    saveTextT fs path parts maxR wfail torn cfail =
+      if (savePartsT maxR wfail torn cfail path (codecSuffix path) parts 0 ⟨fs, 0⟩).2 then
+        ((tryWriteT wfail torn (savePartsT maxR wfail torn cfail path (codecSuffix path) parts 0 ⟨fs, 0⟩).1
+            (joinPath path marker) []).1.fs,
+          if (tryWriteT wfail torn (savePartsT maxR wfail torn cfail path (codecSuffix path) parts 0 ⟨fs, 0⟩).1
+            (joinPath path marker) []).2 then .ok else .failed)
+      else ((savePartsT maxR wfail torn cfail path (codecSuffix path) parts 0 ⟨fs, 0⟩).1.fs, .failed) := by
+  match parts, hn with
+  | [], _ => simp only [saveTextT, hfree]; rfl
+  | [p], hn => simp at hn
+  | p :: q :: ps, _ => simp only [saveTextT, hfree]; rfl
+
+/-- the file system after the part-writing phase still has no marker, torn writes or not -/
+theorem savePartsT_marker_none (fs : FS) (path suffix : Str) (parts : List (List Str)) (maxR : Nat)
+    (wfail torn : Nat → Bool) (cfail : Nat → Nat → Bool) (hfree : fs.pathExists path = false) :
+    (savePartsT maxR wfail torn cfail path suffix parts 0 ⟨fs, 0⟩).1.fs.read (joinPath path marker) = none := by
+  rw [savePartsT_read_ne _ _ _ _ _ _ _ _ _ _ (fun j _ => markerPath_ne_partPath path suffix j)]
+  exact read_joinPath_of_free fs path marker hfree
+
 end PysparklingVerif.Save
